@@ -281,7 +281,8 @@ class Controlled(QuantumGate):
         name = "C" + controlled.name
         n_qubits = len(controlled.dom) + (
             distance + 1 if distance >= 0 else -distance)
-        super().__init__(name, n_qubits, array)
+        super().__init__(
+            name, n_qubits, array, _dagger=controlled._dagger)
 
     def dagger(self):
         return Controlled(self.controlled.dagger(), distance=self.distance)
